@@ -182,6 +182,9 @@ def zero_trip(src):
     return bool(re.search(r"range\(0\)|sum\(\[\]\)", src)) or ("= []" in src and "sum(" in src)
 
 
+import re as _re
+
+
 def run(res, tier):
     findings = [f for f in core.load_findings().get("findings", []) if "C14" in f["properties"]]
     for f in findings:
@@ -199,8 +202,13 @@ def run(res, tier):
     samples = []
     sources = [("extra", s) for s in EXTRA]
     while len(sources) < n:
-        mode, src = pysrc.generate(rng, mode=rng.choice(["clean", "clean", "clean", "typed"]))
+        mode, src = pysrc.generate(rng, mode=rng.choice(["clean", "clean", "clean", "typed", "nearmiss"]))
         sources.append((mode, literal_conditions(rng, src)))
+        # the same program without one of its module-level helper definitions, audited right after it: what an earlier
+        # audit learnt about a name must not make a later program look well typed
+        m_ = _re.search(r"^def (h\d+|helper|total|twice)\(.*?\n(?:    .*\n)+", src, flags=_re.M)
+        if m_ and rng.random() < 0.5:
+            sources.append(("helper-removed", src[:m_.start()] + src[m_.end():]))
     for mode, src in sources:
         try:
             v, clean, recorded = judge(src)
